@@ -2001,6 +2001,20 @@ static void upipe_h264f_output_au(struct upipe *upipe, struct uref *uref,
     upipe_h264f_output(upipe, uref, upump_p);
 }
 
+/** @internal @This forgets the NAL offsets recorded so far: the data they
+ * describe has left the stream, and the head buffer they are attached to may
+ * stay the same.
+ *
+ * @param upipe description structure of the pipe
+ */
+static void upipe_h264f_reset_nal_offsets(struct upipe *upipe)
+{
+    struct upipe_h264f *upipe_h264f = upipe_h264f_from_upipe(upipe);
+    upipe_h264f->au_nal_units = 0;
+    if (upipe_h264f->next_uref != NULL)
+        uref_h26x_delete_nal_offsets(upipe_h264f->next_uref);
+}
+
 /** @internal @This prepares an annex B access unit.
  *
  * @param upipe description structure of the pipe
@@ -2022,6 +2036,7 @@ static struct uref *upipe_h264f_prepare_annexb(struct upipe *upipe)
         upipe_h264f->active_sps == -1 || upipe_h264f->active_pps == -1) {
         upipe_warn(upipe, "discarding data without SPS/PPS");
         upipe_h264f_consume_uref_stream(upipe, upipe_h264f->au_size);
+        upipe_h264f_reset_nal_offsets(upipe);
         upipe_h264f->au_size = 0;
         upipe_h264f->au_nal_units = 0;
         upipe_h264f->au_vcl_offset = -1;
@@ -2043,7 +2058,7 @@ static struct uref *upipe_h264f_prepare_annexb(struct upipe *upipe)
         upipe_throw_fatal(upipe, UBASE_ERR_ALLOC);
         return NULL;
     }
-    upipe_h264f->au_nal_units = 0;
+    upipe_h264f_reset_nal_offsets(upipe);
 
     int err = upipe_h264f_prepare_au(upipe, uref);
     UBASE_FATAL(upipe, err);
@@ -2153,6 +2168,7 @@ static void upipe_h264f_end_annexb(struct upipe *upipe, struct upump **upump_p)
             /* we need to discard previous data */
             upipe_warn(upipe, "discarding non-sync data");
             upipe_h264f_consume_uref_stream(upipe, upipe_h264f->au_size);
+            upipe_h264f_reset_nal_offsets(upipe);
             upipe_h264f->au_size = 0;
         }
         upipe_h264f_sync_acquired(upipe);
@@ -2191,6 +2207,7 @@ static void upipe_h264f_end_annexb(struct upipe *upipe, struct upump **upump_p)
         if (!ubase_check(err)) {
             upipe_warn(upipe, "discarding invalid slice data");
             upipe_h264f_consume_uref_stream(upipe, upipe_h264f->au_size);
+            upipe_h264f_reset_nal_offsets(upipe);
             upipe_h264f->au_size = 0;
             return;
         }
@@ -2204,6 +2221,7 @@ static void upipe_h264f_end_annexb(struct upipe *upipe, struct upump **upump_p)
         /* discard the entire NAL */
         upipe_warn(upipe, "discarding non-slice data due to discontinuity");
         upipe_h264f_consume_uref_stream(upipe, upipe_h264f->au_size);
+        upipe_h264f_reset_nal_offsets(upipe);
         upipe_h264f->au_size = 0;
         return;
     }
